@@ -2,7 +2,7 @@
 # For every seeded change: confirm it (baseline still passes, its demonstration fails with it and passes
 # without it, in a scratch worktree of /repo HEAD), then apply it to /repo, run the property's quick check
 # (must exit 1), and undo it. Results: seeded/RESULTS.tsv
-cd /verif
+cd "$(dirname "$0")/.."
 WT=/tmp/seedverify-$$
 git -C /repo worktree add --detach $WT HEAD >/dev/null 2>&1
 : > seeded/RESULTS.tsv
